@@ -56,9 +56,9 @@ fn view_of(kind: &Kind, g: &Generic, fbvar: u8) -> View {
     }
     let _ = fbvar;
     match kind.name {
-        "Cmdline" => dst!(CommandLineTag, |_t| vec![]),
-        "BootLoaderName" => dst!(BootLoaderNameTag, |_t| vec![]),
-        "Module" => dst!(ModuleTag, |_t| vec![]),
+        "Cmdline" => dst!(CommandLineTag, |t| t.cmdline().map(|s| vec![sl("text", s.as_bytes(), base)]).unwrap_or_default()),
+        "BootLoaderName" => dst!(BootLoaderNameTag, |t| t.name().map(|s| vec![sl("text", s.as_bytes(), base)]).unwrap_or_default()),
+        "Module" => dst!(ModuleTag, |t| t.cmdline().map(|s| vec![sl("text", s.as_bytes(), base)]).unwrap_or_default()),
         "Mmap" => dst!(MemoryMapTag, |t| vec![sl("memory_areas", t.memory_areas(), base)]),
         "Smbios" => dst!(SmbiosTag, |t| vec![sl("tables", t.tables(), base)]),
         "ElfSections" => dst!(ElfSectionsTag, |_t| vec![]),
@@ -147,6 +147,13 @@ fn check_view(ctx: &mut Ctx, kind: &Kind, size: usize, fbvar: u8, r: Out<View>, 
                 ctx.violation(&format!("c05/shape/{}/{}", kind.name, seam), || format!("{} tag of size {}: size_of_val {} (expected {}), address offset {}", kind.name, size, v.sov, round8(size), v.addr_off));
             }
             for (name, off, len) in &v.slices {
+                if *name == "text" {
+                    // a str handed out by a string kind: inside [fixed part, declared size)
+                    if *off < kind.fixed as i64 || *off as usize + *len > size {
+                        ctx.violation(&format!("c05/text-beyond-size/{}/{}", kind.name, seam), || format!("text of a {} tag of size {}: bytes [{}, {}) handed out, the string area is [{}, {})", kind.name, size, off, off + *len as i64, kind.fixed, size));
+                    }
+                    continue;
+                }
                 if *name == "palette" {
                     let n = fbvar as usize;
                     let fits = size >= 34 && 2 + 3 * n <= size - 32;
@@ -200,12 +207,20 @@ fn run(ctx: &mut Ctx) {
         let top = kind.fixed + 4 * kind.elem + extra;
         let mut szs: Vec<u32> = (0..=top as u32).collect();
         szs.extend(EDGE32.iter().copied().filter(|&e| e as usize > top));
-        let fbvars: Vec<u8> = if kind.name == "Framebuffer" { vec![0xFF, 0, 1, 2, 3, 5] } else { vec![0] };
+        // string kinds: variant 1 = letters without NUL in the declared part, zero bytes after it (a terminator that
+        // exists only in the padding)
+        let fbvars: Vec<u8> = if kind.name == "Framebuffer" { vec![0xFF, 0, 1, 2, 3, 5] } else if matches!(kind.name, "Cmdline" | "BootLoaderName" | "Module") { vec![0, 1, 2] } else { vec![0] };
         for &size in &szs {
             for &fbvar in &fbvars {
                 // ---------- tag-level
                 let present = if (size as usize) <= top { round8(size as usize).max(8) - 8 } else { round8(top) - 8 };
-                let img = image(kind, size, present, fbvar);
+                let mut img = image(kind, size, present, fbvar);
+                if fbvar >= 1 && matches!(kind.name, "Cmdline" | "BootLoaderName" | "Module") {
+                    // variant 2: the first padding byte is a letter, the rest zero
+                    for i in kind.fixed..img.len() {
+                        img[i] = if i < size as usize { b'a' + (i % 26) as u8 } else if fbvar == 2 && i == size as usize { b'X' } else { 0 };
+                    }
+                }
                 let describe = || J::obj().set("seam", "tag").set("kind", kind.name).set("declared_size", size).set("stored_palette_count", if fbvar == 0xFF { J::Null } else { J::from(fbvar) }).set("slice", J::hex(&img));
                 ctx.leaf(describe, |ctx| {
                     ctx.state_direct();
